@@ -106,7 +106,7 @@ func (o c11op) ev() Ev {
 }
 
 func genC11(g *Gen) {
-	maxLen := g.Pick(4, 6)
+	maxLen := g.Pick(4, 7)
 	states := 0
 	allStrings([]rune{'x', '\n', '\r'}, maxLen, func(content []rune) {
 		// BFS over observable states of the real scanner
@@ -152,7 +152,7 @@ func genC11(g *Gen) {
 
 	// all call histories of a fixed depth (hidden state that the observable state graph cannot see)
 	hops := []c11op{{"read", 0}, {"unread", 0}, {"unreadmany", 2}}
-	depth := g.Pick(5, 6)
+	depth := g.Pick(5, 7)
 	hlen := g.Pick(3, 4)
 	allStrings([]rune{'x', '\n', '\r'}, hlen, func(content []rune) {
 		if len(content) < 2 {
@@ -182,7 +182,7 @@ func genC11(g *Gen) {
 
 	// random walks
 	r := g.Rand()
-	walks := g.Pick(150, 3000)
+	walks := g.Pick(150, 8000)
 	alpha := []rune{'a', 'b', ' ', '\n', '\r', 0xe9, 0x416, 0x1F600}
 	for i := 0; i < walks; i++ {
 		n := r.Intn(60)
